@@ -63,8 +63,11 @@ class PseudonymManager:
         # Note: if the given metadata is invalid, the token is still inserted!
         if attestations is None:
             attestations = set()
+        known_tokens = set(self.tree.elements)
         if self.tree.gather_token(token) is not None:
             self.database.insert_token(self.public_key, token)
+            # Tokens that were waiting for this one have entered the tree as well: store them too.
+            self.store_new_tokens(known_tokens | {token.get_hash()})
 
             # If the metadata belongs to this token and chain, insert it.
             if metadata.verify(self.public_key) and metadata.token_pointer == token.get_hash():
@@ -80,6 +83,14 @@ class PseudonymManager:
                 self.credentials.append(out)
                 return out
         return None
+
+    def store_new_tokens(self, known_tokens: set[bytes]) -> None:
+        """
+        Store the tokens that entered the tree since ``known_tokens`` was taken, in the order they were chained.
+        """
+        for token_hash, token in list(self.tree.elements.items()):
+            if token_hash not in known_tokens:
+                self.database.insert_token(self.public_key, token)
 
     def add_attestation(self, public_key: PublicKey, attestation: Attestation) -> bool:
         """
